@@ -305,8 +305,20 @@ def poll_probe(r, cfg, d, l0):
     fam = cfg['family']
     out = []
     windows = [(q['reg'], q['reg'] + q['count'] - 1) for q in dev.log[l0:] if q.get('fn') == 3]
-    listed = world.listed(inv)
+    listed = list(world.listed(inv))
     ids = [s.id_ for s in listed]
+    # (ids the result carries although sensors() does not list them are judged as well, by their definition in the
+    # family's sensor tables)
+    unlisted = set(d) - set(ids)
+    if unlisted and fam != 'ES':
+        for name, tab in world.tables(world.FAMILIES[fam]).items():
+            if 'settings' in name:
+                continue
+            for s in tab:
+                if s.id_ in unlisted:
+                    unlisted.discard(s.id_)
+                    listed.append(s)
+                    ids.append(s.id_)
     for s in listed:
         if not own_span(s) or s.id_ not in d or ids.count(s.id_) > 1:
             continue
@@ -317,7 +329,13 @@ def poll_probe(r, cfg, d, l0):
             own = bytes(dev.runtime[s.offset:s.offset + nb])
         else:
             if not any(lo <= s.offset and s.offset + (nb + 1) // 2 - 1 <= hi for lo, hi in windows):
-                continue      # registers not inside a block that was fetched: C14's subject
+                # a value is reported although this poll fetched none of its registers (known: the two Apparent4 sensors
+                # at the end of the MPPT window, KNOWN_FINDINGS)
+                if not any(lo <= s.offset <= hi for lo, hi in windows):
+                    out.append(('C14', f'reported-only-if-fetched/{fam}', f'{s.id_} @{s.offset} = {d[s.id_]!r} is in the result, the poll fetched {windows}'))
+                    out.append(('C12', f'documented-reading/{tname(s)}/not-fetched-by-this-poll', f'{s.id_} @{s.offset} = {d[s.id_]!r} is in the result, '
+                                                                                               f'the poll fetched none of its registers'))
+                continue
             own = dev.rf.getbytes(s.offset, (nb + 1) // 2)[:nb]
         ref = refdec.decode(s, own)
         got = ('ValueError', '') if (d[s.id_] is None and ref is refdec.NOVALUE) else ('value', d[s.id_])
